@@ -372,6 +372,12 @@ func genHistory(t *rapid.T) HistoryCase {
 			return da > db
 		})
 	}
+	if rapid.IntRange(0, 3).Draw(t, "utilsfirst") == 0 {
+		// the application uses the exported utils API with its own field parameters before (or between) the encodes
+		at := rapid.IntRange(0, len(c.Calls)).Draw(t, "utilsat") % 2 * rapid.IntRange(0, len(c.Calls)).Draw(t, "utilspos")
+		u := EncSpec{Fam: "utils", A: rapid.IntRange(0, 5).Draw(t, "utilsvariant")}
+		c.Calls = append(c.Calls[:at], append([]EncSpec{u}, c.Calls[at:]...)...)
+	}
 	if rapid.IntRange(0, 2).Draw(t, "relative") == 0 {
 		// a near-twin right after (or before) one of the calls: the same content with one parameter changed, or the same
 		// parameters with a content of the same length and class (state remembered under a key that leaves something out)
@@ -685,4 +691,65 @@ func TestC15Determinism(t *testing.T) {
 			st.Sample("determinism "+fam, s)
 		}
 	})
+}
+
+// TestC15Eviction: one call, then tens of thousands of DIFFERENT small calls of the same family, then the first call
+// again: a bounded memo (ring of the N most recent contents, LRU of M entries) that recycles its slots wrongly serves
+// a stale or foreign entry for the early content. The repeated call must equal its first result (in-process; the first
+// result itself is compared with a fresh process by the other parts). 20000 calls for the 1D families, 9000 for the 2D.
+func TestC15Eviction(t *testing.T) {
+	st := NewStats("C15", "eviction")
+	defer st.Flush()
+	ct := &collectTB{}
+	type fam struct {
+		spec  EncSpec
+		n     int
+		other func(i int) BStr
+	}
+	digits := func(n int) func(i int) BStr {
+		return func(i int) BStr { return BStr(fmt.Sprintf("%0*d", n, i)) }
+	}
+	c39 := func(i int) BStr { return BStr(fmt.Sprintf("K%X-%d", i, i%7)) }
+	fams := []fam{
+		{EncSpec{Fam: "code39", Content: BStr("A"), F1: true}, 20000, c39}, {EncSpec{Fam: "code39", Content: BStr("first call"), F1: true, F2: true}, 20000, func(i int) BStr { return BStr(fmt.Sprintf("k%x/%d", i, i%5)) }},
+		{EncSpec{Fam: "code93", Content: BStr("A1"), F1: true}, 20000, c39}, {EncSpec{Fam: "code128", Content: BStr("First 128")}, 20000, func(i int) BStr { return BStr(fmt.Sprintf("c%d\x01%x", i, i)) }},
+		{EncSpec{Fam: "code128nc", Content: BStr("1234")}, 20000, digits(6)}, {EncSpec{Fam: "ean", Content: BStr("1234567")}, 20000, digits(7)}, {EncSpec{Fam: "ean", Content: BStr("590123412345")}, 20000, digits(12)},
+		{EncSpec{Fam: "codabar", Content: BStr("A12-3$B")}, 20000, func(i int) BStr { return BStr(fmt.Sprintf("B%d-%dC", i, i%9)) }}, {EncSpec{Fam: "2of5", Content: BStr("12345")}, 20000, digits(6)},
+		{EncSpec{Fam: "itf", Content: BStr("123456")}, 20000, digits(8)},
+		{EncSpec{Fam: "qr", Content: BStr("FIRST QR"), A: 1, B: 0}, 9000, func(i int) BStr { return BStr(fmt.Sprintf("qr %d/%x", i, i)) }}, {EncSpec{Fam: "datamatrix", Content: BStr("first dm")}, 9000, func(i int) BStr { return BStr(fmt.Sprintf("dm%d", i)) }},
+		{EncSpec{Fam: "aztec", Content: BStr("First Aztec"), A: 33}, 9000, func(i int) BStr { return BStr(fmt.Sprintf("az %d.", i)) }}, {EncSpec{Fam: "pdf417", Content: BStr("First PDF417"), A: 1}, 9000, func(i int) BStr { return BStr(fmt.Sprintf("pdf %d;", i)) }},
+	}
+	parallelFor(len(fams), 16, func(k int) {
+		if ct.Failed() {
+			return
+		}
+		f := fams[k]
+		ct.guard(func() {
+			bc, err, pv := encodeSpec(f.spec)
+			first := enc.Fingerprint(bc, err, pv)
+			probes := []EncSpec{f.spec}
+			fps := []string{first}
+			for i := 0; i < f.n; i++ {
+				o := f.spec
+				o.Content = f.other(i)
+				obc, oerr, opv := encodeSpec(o)
+				if i < 3 || i == 4000 {
+					probes = append(probes, o)
+					fps = append(fps, enc.Fingerprint(obc, oerr, opv))
+				}
+			}
+			for j, p := range probes {
+				bc2, err2, pv2 := encodeSpec(p)
+				if fp := enc.Fingerprint(bc2, err2, pv2); fp != fps[j] {
+					failf(ct, "C15", "purity", HistoryCase{Calls: []EncSpec{p}}, "the call (%s, content %q) returns a different barcode after %d other %s calls than it returned before them", p.Label(), truncS(p.Content), f.n, p.Fam)
+				}
+			}
+			st.EvalN(int64(f.n))
+			st.NonTrivial(H("eviction", f.spec.Fam, f.spec.Content))
+			st.Class("early call repeated after " + fmt.Sprint(f.n) + " other calls of its family")
+		})
+	})
+	if ct.Failed() {
+		t.Fatalf("%s", ct.first)
+	}
 }
